@@ -57,8 +57,7 @@ func main() {
 			os.Exit(2)
 		}
 		if d.Replay == nil {
-			fmt.Println("replay not supported for", prop)
-			os.Exit(2)
+			d.Replay = genericReplay(d)
 		}
 		sigs := d.Replay(v)
 		fmt.Println("observed signatures:", sigs)
@@ -71,5 +70,30 @@ func main() {
 		fmt.Println("violation not reproduced")
 	default:
 		os.Exit(2)
+	}
+}
+
+// genericReplay re-executes the recorded scenario / operation path of a violation on a fresh
+// fixture, without the exploration around it: explorers follow only that path, scenario
+// enumerations run only the scenario with that description (drivers that have no such filter
+// re-run their enumeration in this process, which is the same code the check runs).
+func genericReplay(d driver) func(v engine.Violation) []string {
+	return func(v engine.Violation) []string {
+		engine.ReplayPath = append([]string{}, v.Path...)
+		seen := map[string]bool{}
+		var sigs []string
+		for _, tier := range []string{"quick", "thorough"} {
+			res := d.Worker(0, 1, tier)
+			for _, x := range res.Violations {
+				if !seen[x.Signature] {
+					seen[x.Signature] = true
+					sigs = append(sigs, x.Signature)
+				}
+			}
+			if seen[v.Signature] {
+				break
+			}
+		}
+		return sigs
 	}
 }
